@@ -162,6 +162,12 @@ def run(ctx):
         ask("xwrite " + "#".join(tl.frame_request(f) for f in confs),
             lambda resp, text=text, confs=confs: (resp == "ok " + tl.hx(text)) or ctx.disagree(
                 "ConformerEnsemble.dumps_xyz text differs from the model writer", confs[0], text, tl.unhx(resp[3:]) if resp.startswith("ok ") else resp))
+        st, pair = tl.limited(lambda: tl.reentrant_dump(ens, "xyz"))
+        ctx.count("overlapping_dumps")
+        if st != "ok" or pair[0] != text or pair[1] != text:
+            ctx.violation("C08:overlapping-dumps-differ",
+                          "two overlapping xyz dumps of one ensemble do not both contain every frame "
+                          f"({'raised ' + repr(pair) if st != 'ok' else 'frames: %d / %d of %d' % (pair[0].count(chr(10) + confs[0]['comment'] + chr(10)), pair[1].count(chr(10) + confs[0]['comment'] + chr(10)), k)})", replay)
         st, back = tl.limited(lambda: ml.ConformerEnsemble.loads_xyz(text))
         if st != "ok":
             ctx.violation("C08:own-output-rejected", f"ConformerEnsemble.loads_xyz rejects the ensemble's own text: {back!r}", replay)
